@@ -226,12 +226,16 @@ func replay(sc Scenario) (res Result) {
 			if e := storage.VerifTickAll(); e != nil {
 				return fail(i, "background flush failed: "+e.Error())
 			}
-		case "restart":
-			if e := w.sess.Close(); e != nil {
-				return fail(i, "Close failed: "+e.Error())
-			}
-			if n := storage.VerifOpenStores(); n > 0 {
-				res.Leak = n
+		case "restart", "crash":
+			if st.A == "restart" {
+				if e := w.sess.Close(); e != nil {
+					return fail(i, "Close failed: "+e.Error())
+				}
+				if n := storage.VerifOpenStores(); n > 0 {
+					res.Leak = n
+				}
+			} else if w.sess.RelationService != nil {
+				storage.VerifAbandon(w.sess.RelationService) // the process dies: nothing is flushed or closed
 			}
 			storage.VerifForgetStores() // whatever is still open dies with the process
 			var ierr error
@@ -261,7 +265,7 @@ func replay(sc Scenario) (res Result) {
 			}
 		}
 		// the selected database, if it has the table, must hold what was promised
-		if st.Exp.Cur != "" && st.A != "restart" {
+		if st.Exp.Cur != "" && st.A != "restart" && st.A != "crash" {
 			for _, d := range st.Exp.Dbs {
 				if d.D == st.Exp.Cur && d.Has {
 					if v := w.checkRows(d.D, d.Rows); len(v) > 0 {
